@@ -38,6 +38,9 @@ type Sched struct {
 	ClockChance int
 	ClockMax    time.Duration
 	SimTime     time.Duration
+	// OnQuiescent is called whenever the bubble is quiescent (every goroutine parked or durably
+	// blocked): the only instants at which harness bookkeeping done by several goroutines is stable.
+	OnQuiescent func()
 	// OnStep is called after every scheduling step (history recording).
 	OnStep func()
 	// Idle is called when nothing is parked and the run is not done; it must make progress
@@ -127,6 +130,9 @@ func (s *Sched) Stop() {
 func (s *Sched) Run(done func() bool, maxSteps int) string {
 	for {
 		synctest.Wait()
+		if s.OnQuiescent != nil {
+			s.OnQuiescent()
+		}
 		if done() {
 			return ""
 		}
